@@ -3,10 +3,12 @@
 The core of C05 — which latitude/longitude cell a piece is attributed to, path
 order, and that shares equal length shares — is searchsorted / midpoint
 arithmetic over real coordinates.  No sound static argument in reach bounds
-it; it is NOT decided.  Only these sub-clauses are decided, all but R3/R6 on
-CLOSED VALUES (c04.Values: locals replaced by their reaching definitions,
-helpers opened, tuples / records taken apart, one canonical spelling), i.e. on
-what flows where and not on how it is written:
+it; it is NOT decided.  Only these sub-clauses are decided, all on CLOSED
+VALUES (c04.Values: locals replaced by their reaching definitions, helpers
+opened, tuples / records taken apart, one canonical spelling; for arrays that
+are altered in place, STATE VALUES - class States - : the value bound, then
+the alterations that reach the use, in order), i.e. on what flows where and
+not on how it is written:
 
 R1  starting-point attribution: the altitude / time cells returned by the share
     computation are the per-point look-up of the coordinate as received with
@@ -28,21 +30,47 @@ R2  matching lengths: latitude / longitude cells are the intersection's own
     four arrays of the horizontal intersection are received under names of the
     same axis and kind through whatever container carries them (nested tuples,
     records read by position or field).
-R3  part-suffix agreement (T-ROLE): every first-/second-part quantity is
-    computed from inputs of its own part, each output is looked up with its own
-    index array (altitude indices index the altitude grid, ...), and halves are
-    concatenated first-then-second.
+R3  part agreement by provenance (T-ROLE, c04.rule_suffix): what the
+    antimeridian driver returns is closed over the two split calls and the two
+    share computations, everything in between opened.  Every array a share
+    computation receives is a component of ONE split call's result, in the slot
+    of its own role (the role of a component is read from its value: the
+    way-points / variable it is cut from); the two share computations take
+    their arrays from the two different split functions; every output joins
+    the half computed from the first split with the half computed from the
+    second, in that order; each output is looked up with its own index array
+    (altitude indices index the altitude grid, ...).  No name marker is read.
 R4  the altitude / time cell of a segment is searchsorted(<own grid axis>,
     <own coordinate as received>) − 1: wrong axis, cast coordinates, another
     side are reported (value followed through any helpers).
 R5  ordering direction: the rows of intersection coordinates sorted descending
-    (negate – sort – negate) are those where the way-point coordinate of the
-    same axis decreases, read from the coordinates themselves; the axis of an
-    array is the returned coordinate array it flows into; the piece end points
-    are the way-points of that axis.
-R6  the latitude and longitude halves of the horizontal intersection are mirror
-    images of each other, up to a consistent one-to-one renaming of temporaries
-    (whose own statements must then mirror each other too).
+    (every negation step in the state value of the array: negate – sort –
+    negate, in place or through a sorted copy, inline or in a helper) are those
+    where the way-point coordinate of the same axis decreases, read from the
+    coordinates themselves; the axis of an array is the returned coordinate
+    array it flows into; the piece end points are the way-points of that axis
+    (way-point i … way-point i + 1).  Rows negated before the sort and not
+    negated back, a mask that selects the rows where the coordinate INcreases,
+    a direction read from cell-index changes are reported.
+R6  mirror symmetry on state values: each latitude-side array the horizontal
+    intersection returns holds what its longitude-side counterpart holds under
+    the exchange σ of the received coordinates (lats <-> lons), the grid axes
+    (grid_latitudes <-> grid_longitudes) and the per-axis arrays filled in the
+    loops over the crossed grid lines (paired one-to-one as they are met; σ is
+    an involution).  Temporaries, helpers, hoisted masks, np.full vs np.empty +
+    fill, x.sort() vs np.sort(x), `op=` vs rebinding, `if` steps vs conditional
+    expression, + * & | in either order, differently written but equal
+    arithmetic (rational normal form), len() of either coordinate, axis=-1 vs 1
+    do not matter.  The loop-filled arrays are compared in turn: allocation,
+    iteration, positions written always; the values written when they are
+    values of ONE axis (the crossing coordinates on the other axis solve
+    lon = slope·lat + intercept for one or the other coordinate and are no
+    mirror images by nature); skip guards (`if …: continue`, a filtered
+    iteration, a write under an `if` on one side) are not compared.  A
+    coordinate / axis / per-axis array / loop variable / numeric constant /
+    slice that is not the mirror image, a different number of in-place steps,
+    or a different rational expression of the same quantities is a violation;
+    sides written with other functions or shapes are exit 2.
 R7  every guarded division (np.divide(where=) or np.where with the quotient in
     either arm) is guarded exactly on its denominator: the mask, wherever it is
     built, closes to `denominator != 0` or has the same truth table on every
@@ -79,10 +107,10 @@ import re
 from ..algebra import AlgebraError, normal_form, poly_equal
 from ..astutil import (call_name, calls_in, const_value, eval_pred, kwarg, names_in, norm, single_def_value, stmt_of, stores_to,
                        walk_no_nested)
-from .c04 import (DIST_FN, HZ_FN, MUT, RES, SPLITS, Pending, SeqView, Undecided, _ix, _ph, alts, module_calls, as_received, canon,
+from .c04 import (DIST_FN, HZ_FN, MUT, RES, SPLITS, Pending, SeqView, Undecided, _ix, _mk, _ph, alts, module_calls, as_received, canon,
                   closed, describe_count, elem_form, grid_values, guard_verdict, hz_leaf, index_param, is_mask, is_mk, leaf_role,
                   lookup_verdict, mentions, parse_lookup, pervar_values, pm, pm_any, ret_elts, rule_suffix, run_rules, same,
-                  share_model, show, show_parts, strip_casts)
+                  share_model, show, show_parts, strip_casts, tcopy)
 
 GRID = 'gridding/grid.py'
 SHARE_FN = 'Gridder._cell_idxs_touched_by_trajectory_with_state_and_integrated_vars'
@@ -97,12 +125,6 @@ def axis_of(name: str) -> str | None:
         if any(w in t for w in words):
             hits.append(a)
     return hits[0] if len(hits) == 1 else None
-
-
-def _root(e):
-    while isinstance(e, (ast.Subscript, ast.Attribute, ast.Starred)):
-        e = e.value
-    return e.id if isinstance(e, ast.Name) else None
 
 
 def _kind_of(name: str) -> str:
@@ -732,20 +754,6 @@ def hz_leaves(ctx, m, rule):
     return out
 
 
-def _is_negation(st):
-    """mask of `X[mask] = -X[mask]` (rows under the mask change sign in place), else None"""
-    if not (isinstance(st, ast.Assign) and len(st.targets) == 1 and isinstance(st.targets[0], ast.Subscript)):
-        return None
-    t, v = st.targets[0], st.value
-    neg = isinstance(v, ast.UnaryOp) and isinstance(v.op, ast.USub) and isinstance(v.operand, ast.Subscript) and norm(v.operand) == norm(t)
-    neg = neg or (isinstance(v, ast.BinOp) and isinstance(v.op, ast.Mult) and norm(t) in (norm(v.left), norm(v.right))
-                  and '-1' in (norm(v.left), norm(v.right)))
-    neg = neg or (isinstance(v, ast.Call) and call_name(v) in ('np.negative', 'numpy.negative') and len(v.args) == 1 and norm(v.args[0]) == norm(t))
-    if not neg:
-        return None
-    return t.slice.elts[0] if isinstance(t.slice, ast.Tuple) else t.slice
-
-
 def rule_direction(ctx, m, rule):
     """C05-R5 / C04-R5: each coordinate array the horizontal intersection returns is [way-point | ordered intersection
     coordinates | next way-point] of ONE axis; the rows of intersection coordinates that are put in descending order
@@ -753,6 +761,7 @@ def rule_direction(ctx, m, rule):
     coordinates themselves.  Reading the direction from the change of cell index loses the direction of a leg that
     stays inside one band.  Which array is which axis is decided by the returned array it flows into, not by its name."""
     V = grid_values(ctx)
+    S = grid_states(ctx)
     hz = m.func(HZ_FN)
     pend = Pending(ctx)
     n = 0
@@ -767,6 +776,16 @@ def rule_direction(ctx, m, rule):
         b = pm_any(['np.column_stack((C_[:-1], P_, C_[1:]))', 'np.hstack((C_[:-1, None], P_, C_[1:, None]))',
                     'np.concatenate((C_[:-1, None], P_, C_[1:, None]), axis=1)'], val)
         if b is None:
+            # [X | points | Y] with X, Y plain slices of received arrays, but not way-point i and way-point i + 1 of one array
+            b3 = pm_any(['np.column_stack((A_[SA_], P_, B_[SB_]))', 'np.hstack((A_[SA_, None], P_, B_[SB_, None]))'], val)
+            if b3 is not None and all(isinstance(b3[k], ast.Name) and b3[k].id in hz.params for k in ('A_', 'B_')) and \
+                    all(isinstance(b3[k], ast.Slice) for k in ('SA_', 'SB_')):
+                pend.put(rule, hz, f'{role}s of the pieces start and end at the way-points',
+                         (False, f'the pieces of a segment run from `{norm(b3["A_"])}[{norm(b3["SA_"])}]` to `{norm(b3["B_"])}[{norm(b3["SB_"])}]`, not '
+                                 f'from way-point i to way-point i + 1 (`{coord}[:-1]` … `{coord}[1:]`): piece lengths and cells are wrong'),
+                         line=ret.lineno)
+                n += 2
+                continue
             pend.put(rule, hz, f'returned {role} array', (None, f'`{show(val, 90)}` is not [way-point | intersection points | next way-point]'))
             continue
         c = strip_casts(b['C_'])
@@ -775,38 +794,56 @@ def rule_direction(ctx, m, rule):
                  ((False, f'the {axis} coordinates of the piece end points are taken from `{show(c, 30)}`, not from `{coord}`')
                   if isinstance(c, ast.Name) and c.id in hz.params else (None, f'`{show(c, 50)}` is not recognised as `{coord}` as received')),
                  line=ret.lineno, nontrivial=False)
-        muts = {}
-        for x in ast.walk(b['P_']):
-            if is_mk(x, MUT):
-                muts[x.args[0].value] = x
+        # what the intersection coordinates hold, in-place alterations applied in order (see States): every negation step
+        # NEG__(mask) in it is one half of a negate - sort - negate
+        try:
+            state = S.expand(b['P_'])
+        except Undecided as e:
+            pend.put(rule, hz, f'{axis} intersection coordinates', (None, str(e)))
+            continue
+        chains = {}
+        for x in ast.walk(state):
+            if is_mk(x, STEPS):
+                chains.setdefault(ast.dump(x), x)
+        negs = [st for ch in chains.values() for st in ch.args[1:] if is_mk(st, NEG)]
+        # rows negated for the sort and never negated back keep the wrong sign
+        unbalanced = False
+        for ch in chains.values():
+            kinds = ['N' if is_mk(st, NEG) else 'S' if is_mk(st, SORT) else '-' for st in ch.args[1:]]
+            if 'S' in kinds and 'N' in kinds[:kinds.index('S')] and 'N' not in kinds[kinds.index('S'):]:
+                first = next(st for st in ch.args[1:] if is_mk(st, NEG))
+                unbalanced = True
+                pend.put(rule, hz, f'{axis} intersection coordinates: negate - sort - negate', (False, (
+                    f'the rows negated before the sort (`{show(first.args[0], 50)}`) are not negated back after it: on segments along which '
+                    f'the {axis} coordinate decreases the intersection coordinates keep the wrong sign')), line=getattr(first, 'lineno', ret.lineno))
         nneg = 0
-        for mut in muts.values():
-            _, alters = V.alterations_of(mut)
-            for st in alters:
-                mask = _is_negation(st)
-                if mask is None:
-                    continue
-                nneg += 1
-                M = canon(V.close(hz, mask, st))
-                bm = pm_any(['np.sign(np.diff(X_)) == -1', 'np.sign(np.diff(X_)) < 0', 'np.diff(X_) < 0', 'X_[1:] < X_[:-1]',
-                             'X_[:-1] > X_[1:]', 'X_[1:] - X_[:-1] < 0', 'np.sign(X_[1:] - X_[:-1]) == -1',
-                             'np.sign(X_[1:] - X_[:-1]) < 0', 'np.sign(np.diff(X_)) <= -1', 'np.less(np.diff(X_), 0)'], M)
-                what = f'{axis} intersection coordinates: rows sorted descending where {show(M, 60, top=False)}'
-                if bm is not None and isinstance(strip_casts(bm['X_']), ast.Name):
-                    got = strip_casts(bm['X_']).id
-                    verdict = (True, 'direction of travel along this axis, from the coordinates') if got == coord else \
-                        ((False, f'the {axis} intersection coordinates are ordered by the direction of `{got}`, not of `{coord}`')
-                         if got == other else (None, f'`{got}` is not recognised as the way-point {axis} coordinates'))
-                elif mentions(M, lambda y: isinstance(y, ast.Call) and call_name(y).endswith('searchsorted')):
-                    verdict = (False, ('the ordering direction of the intersection points is not the sign of the coordinate difference '
-                                       f'but is derived from cell indices (`{show(M, 70)}`): a leg that stays inside one {axis} band (index '
-                                       'change 0) still has a direction; its intersection points get mis-ordered, its pieces zig-zag and '
-                                       'its length fractions sum to more than one'))
-                else:
-                    verdict = (None, f'direction mask `{show(M, 70)}` is not recognised')
-                pend.put(rule, hz, what, verdict, line=st.lineno)
-        n += nneg
-        if nneg % 2 or not nneg:
+        for x in negs:
+            mask = x.args[0].elts[0] if isinstance(x.args[0], ast.Tuple) and x.args[0].elts else x.args[0]
+            nneg += 1
+            M = canon(mask)
+            bm = pm_any(['np.sign(np.diff(X_)) == -1', 'np.sign(np.diff(X_)) < 0', 'np.diff(X_) < 0', 'X_[1:] < X_[:-1]',
+                         'X_[:-1] > X_[1:]', 'X_[1:] - X_[:-1] < 0', 'np.sign(X_[1:] - X_[:-1]) == -1',
+                         'np.sign(X_[1:] - X_[:-1]) < 0', 'np.sign(np.diff(X_)) <= -1', 'np.less(np.diff(X_), 0)'], M)
+            what = f'{axis} intersection coordinates: rows sorted descending where {show(M, 60, top=False)}'
+            if bm is not None and isinstance(strip_casts(bm['X_']), ast.Name):
+                got = strip_casts(bm['X_']).id
+                verdict = (True, 'direction of travel along this axis, from the coordinates') if got == coord else \
+                    ((False, f'the {axis} intersection coordinates are ordered by the direction of `{got}`, not of `{coord}`')
+                     if got == other else (None, f'`{got}` is not recognised as the way-point {axis} coordinates'))
+            elif pm_any(['np.sign(np.diff(X_)) == 1', 'np.sign(np.diff(X_)) > 0', 'np.diff(X_) > 0', 'X_[1:] > X_[:-1]', 'X_[:-1] < X_[1:]',
+                         'X_[1:] - X_[:-1] > 0', 'np.sign(X_[1:] - X_[:-1]) == 1', 'np.sign(np.diff(X_)) >= 1'], M) is not None:
+                verdict = (False, (f'the rows put in descending order are those along which the coordinate INcreases (`{show(M, 50)}`): '
+                                   f'the {axis} intersection coordinates of every segment are ordered against the direction of travel'))
+            elif mentions(M, lambda y: isinstance(y, ast.Call) and call_name(y).endswith('searchsorted')):
+                verdict = (False, ('the ordering direction of the intersection points is not the sign of the coordinate difference '
+                                   f'but is derived from cell indices (`{show(M, 70)}`): a leg that stays inside one {axis} band (index '
+                                   'change 0) still has a direction; its intersection points get mis-ordered, its pieces zig-zag and '
+                                   'its length fractions sum to more than one'))
+            else:
+                verdict = (None, f'direction mask `{show(M, 70)}` is not recognised')
+            pend.put(rule, hz, what, verdict, line=getattr(x, 'lineno', ret.lineno))
+        n += nneg + unbalanced
+        if (nneg % 2 and not unbalanced) or not nneg:
             pend.put(rule, hz, f'{axis} intersection coordinates ordered along the segment',
                      (None, f'{nneg} negate-in-place statements found on the intersection coordinates (expected negate - sort - negate)'))
     ctx.floor(rule, n, 4, 'negate-sort-negate statements on the intersection coordinates')
@@ -1024,87 +1061,705 @@ def _flags_subst(v, fi, flag_params):
     from .c04 import _subst
     return _subst(v, mine)
 
-def rule_mirror(ctx, m):
-    hz = m.func(HZ_FN)
-    # ---- R6: mirrored lat/lon statements agree (sibling cross-check) ------------------------
-    swap = {'lat': 'lon', 'lats': 'lons', 'latitude': 'longitude', 'latitudes': 'longitudes'}
-    swap.update({v: k for k, v in list(swap.items())})
+# ---------------------------------------------------------------------------------------------------------------
+# State values.  c04.Values leaves a local that is altered in place opaque (MUT__).  `States` replaces every such
+# node by what the local HOLDS at the point of use:
+#     STEPS__(base, step, ...)     the value it was bound to, then the alterations that reach the use, in order
+#     LFILL__('key')               an array that is (also) written inside a loop the binding is not part of - an atom;
+#                                  its build (base, steps) is kept in `States.fills[key]`
+# a step is one of
+#     SET__(index, value)          local[index] = value
+#     NEG__(mask)                  local[mask] = -local[mask]            (any spelling of the negation)
+#     SORT__(args...)              local.sort(args...)
+#     AUG__(op, value)             local op= value      /  SETAUG__(index, op, value)   local[index] op= value
+#     METH__('name', args...)      any other mutating method
+#     IF__(test, step)             the alteration is made under an `if` (test negated for the else arm)
+#     FOR__(target, iter, step)    the alteration is made inside a `for` loop
+# with every index / value / test closed the same way at its own statement (PREV__ = the local itself just before the
+# step).  `if …: continue / break` guards inside a loop body are not represented.
+# ---------------------------------------------------------------------------------------------------------------
+STEPS, LFILL, PREV, SET, NEG, SORT, AUG, SETAUG, METH, IFS, FOR = (
+    'STEPS__', 'LFILL__', 'PREV__', 'SET__', 'NEG__', 'SORT__', 'AUG__', 'SETAUG__', 'METH__', 'IF__', 'FOR__')
 
-    def mirror(txt: str) -> str:
-        return re.sub(r'[A-Za-z]+', lambda mo: swap.get(mo.group(0), mo.group(0)), txt)
 
-    hz_locals = {x.id for x in ast.walk(hz.node) if isinstance(x, ast.Name) and isinstance(x.ctx, ast.Store)}
-    ren: dict[str, str] = {}
+def _loops_of(st, stop):
+    """the loop statements around `st` inside function node `stop`, innermost first"""
+    from ..astutil import ancestors
+    out = []
+    for a in ancestors(st):
+        if a is stop:
+            break
+        if isinstance(a, (ast.For, ast.AsyncFor, ast.While)):
+            out.append(a)
+    return out
 
-    def mirror_eq(a_txt: str, b_txt: str) -> bool:
-        """b is the lat↔lon mirror image of a, up to a consistent one-to-one renaming of temporaries"""
-        ta = re.findall(r'[A-Za-z_]\w*|\S', mirror(a_txt))
-        tb = re.findall(r'[A-Za-z_]\w*|\S', b_txt)
-        if len(ta) != len(tb):
-            return False
-        trial = dict(ren)
-        for x, y in zip(ta, tb):
-            if x == y and trial.get(x, x) == x:
-                continue
-            if x in hz_locals and y in hz_locals and trial.get(x, y) == y and \
-                    all(v != y or k == x for k, v in trial.items()):
-                trial[x] = y
-                continue
-            return False
-        ren.update(trial)
-        return True
 
-    def rooted(name):
-        """top-level statements that bind or alter local `name`, in order"""
-        out = []
-        for st in hz.node.body:
-            if isinstance(st, ast.Assign) and len(st.targets) == 1 and _root(st.targets[0]) == name:
-                out.append(st)
-            elif isinstance(st, ast.AugAssign) and _root(st.target) == name:
-                out.append(st)
-            elif isinstance(st, ast.Expr) and isinstance(st.value, ast.Call) and isinstance(st.value.func, ast.Attribute) \
-                    and _root(st.value.func.value) == name:
-                out.append(st)
+class States:
+    def __init__(self, V):
+        self.V = V
+        self.fills = {}
+        self._memo = {}
+        self._busy = set()
+
+    def value(self, fi, e, at, stack=()):
+        return self.expand(canon(self.V.close(fi, e, at, frozenset(), stack)))
+
+    def expand(self, e, me=None):
+        """copy of closed value `e` with every MUT__ node replaced by the state of that local; `me` = (function node, local,
+        ids of the statements that made its present state | None): references to that state of the local become PREV__"""
+        S, V = self, self.V
+
+        class T(ast.NodeTransformer):
+            def visit_Call(self, n):
+                if is_mk(n, MUT):
+                    fi, name, ds2, _ = V._muts[n.args[0].value]
+                    if me is not None and fi.node is me[0] and name == me[1] and (me[2] is None or {id(d) for d in ds2} == me[2]):
+                        return ast.Name(id=PREV, ctx=ast.Load())
+                    return tcopy(S._state(n.args[0].value))
+                self.generic_visit(n)
+                return n
+        return T().visit(tcopy(e))
+
+    def _state(self, key):
+        if key in self._memo:
+            return self._memo[key]
+        if key in self._busy:
+            raise Undecided(f'`{key.split("@")[0]}` is altered in terms of itself in a way that is not followed')
+        self._busy.add(key)
+        try:
+            out = self._build(key)
+        finally:
+            self._busy.discard(key)
+        self._memo[key] = out
         return out
 
-    tops = {}
-    for st in hz.node.body:
-        if isinstance(st, ast.Assign) and len(st.targets) == 1:
-            tops.setdefault(norm(st.targets[0]), []).append(st)
-    npairs = 0
-    for tgt, sts in sorted(tops.items()):
-        mt = mirror(tgt)
-        if mt == tgt or mt not in tops or tgt > mt:
-            continue
-        a, b = tops[tgt], tops[mt]
-        npairs += 1
-        bad = next(((x, y) for x, y in zip(a, b) if not mirror_eq(norm(x.value), norm(y.value))), None)
-        ok = len(a) == len(b) and bad is None
-        ctx.ob('C05-R6', hz, f'{tgt} ↔ {mt}', ok, 'latitude and longitude halves are mirror images' if ok else
-               (f'latitude and longitude are treated differently: `{norm(bad[0].value)[:60]}` vs '
-                f'`{norm(bad[1].value)[:60]}`' if bad else 'one axis has more definitions than the other'),
-               line=(bad[1].lineno if bad else sts[0].lineno))
-    # temporaries that stand for each other in the two halves must themselves be built and altered as mirror images
+    def _build(self, key):
+        V = self.V
+        fi, name, ds, stack = V._muts[key]
+        view = V.view(fi)
+        binds = [d for d in ds if V._binds(d, name) is not None]
+        alters = [d for d in ds if V._binds(d, name) is None]
+        if not alters:
+            raise Undecided(f'`{name}` is altered in place through another name')
+        if not binds and name in view.params:
+            base, bind_at = ast.Name(id=name, ctx=ast.Load()), None
+        elif len(binds) == 1 and V._binds(binds[0], name) is True and not (name in view.params and view.entry_reaches(alters[0], name)):
+            bind_at = binds[0]
+            base = self.expand(canon(V._bound_value(fi, name, bind_at, stack, 0)))
+        else:
+            raise Undecided(f'`{name}` is altered in place after {len(binds)} different bindings')
+        lb = _loops_of(bind_at, fi.node) if bind_at is not None else []
+        # bound to a sorted copy / to another altered array: the same chain of steps, continued
+        raw_base, pre = base, []
+        b = pm_any(['np.sort(Y_)', 'np.sort(Y_, axis=A_)', 'np.sort(Y_, A_)'], base)
+        if b is not None and is_mk(b['Y_'], STEPS):
+            srt = _mk(SORT)
+            if 'A_' in b:
+                srt.keywords = [ast.keyword(arg='axis', value=b['A_'])]
+            base, pre = b['Y_'], [srt]
+        if is_mk(base, STEPS):
+            base, pre = base.args[0], list(base.args[1:]) + pre
+        steps, looped = list(pre), False
+        for st in alters:
+            ls = _loops_of(st, fi.node)
+            extra = ls[:len(ls) - len(lb)] if len(ls) >= len(lb) else None
+            if extra is None or any(x is not y for x, y in zip(ls[len(extra):], lb)) or \
+                    (bind_at is not None and (st.lineno, st.col_offset) < (bind_at.lineno, bind_at.col_offset)):
+                raise Undecided(f'`{name}`: the alteration at line {st.lineno} is not in the scope of its binding')
+            prev = None if (looped or extra) else (raw_base if st is alters[0] else (_mk(STEPS, base, *steps) if steps else base))
+            prior = None if prev is None else {id(d) for d in binds + alters[:alters.index(st)]}
+            s = self._step(fi, name, st, stack, prev, extra[0] if extra else (lb[0] if lb else fi.node), prior, bind_at)
+            for L in extra:
+                if not isinstance(L, ast.For) or L.orelse:
+                    raise Undecided(f'`{name}` is altered inside a loop at line {L.lineno} that is not a plain `for`')
+                it = self.expand(canon(V.close(fi, L.iter, L, frozenset(), stack)), (fi.node, name, None))
+                while isinstance(it, ast.Subscript) and is_mask(it.slice):
+                    it = it.value       # a filtered iteration is a skip guard (not represented, like `if …: continue`)
+                s = _mk(FOR, self._load(L.target), it, s)
+            looped = looped or bool(extra)
+            steps.append(s)
+        base, steps = self._allocated(base, steps)
+        if looped:
+            self.fills[key] = {'fi': fi, 'name': name, 'base': base, 'steps': steps, 'line': (bind_at or alters[0]).lineno}
+            return _mk(LFILL, ast.Constant(key))
+        out = self._functional(base, steps)
+        if out is None:
+            out = _mk(STEPS, base, *steps) if steps else base
+        if not isinstance(out, (ast.Name, ast.Constant)):
+            out._nm = name
+        return out
+
+    @staticmethod
+    def _allocated(base, steps):
+        """np.empty(shape) filled as a whole with one value is np.full(shape, value)"""
+        if steps and is_mk(steps[0], SET):
+            idx, val = steps[0].args
+            whole = (isinstance(idx, ast.Slice) and idx.lower is None and idx.upper is None and idx.step is None) or \
+                (isinstance(idx, ast.Constant) and idx.value is Ellipsis)
+            b = pm_any(['np.empty(S_)', 'np.empty(S_, dtype=T_)', 'np.empty(S_, T_)', 'np.zeros(S_)', 'np.zeros(S_, dtype=T_)',
+                        'np.ones(S_)', 'np.ones(S_, dtype=T_)'], base)
+            if whole and b is not None and not mentions(val, lambda x: isinstance(x, ast.Name) and x.id == PREV) and \
+                    (b.get('T_') is not None or norm(val) in ('np.nan', 'np.inf', '-np.inf') or isinstance(const_value(val), float)):
+                full = ast.Call(func=ast.parse('np.full', mode='eval').body, args=[b['S_'], val],
+                                keywords=[ast.keyword(arg='dtype', value=b['T_'])] if b.get('T_') is not None else [])
+                return full, steps[1:]
+        return base, steps
+
+    @staticmethod
+    def _functional(base, steps):
+        """the value as an expression when every alteration has a functional reading: `x op= v` is `x op v`, `x.sort(…)` is
+        `np.sort(x, …)`, an alteration under `if t` is `new if t else old` (both arms of one test merged); None otherwise"""
+        def with_prev(e, cur):
+            class P(ast.NodeTransformer):
+                def visit_Name(self, n):
+                    return tcopy(cur) if n.id == PREV else n
+            return P().visit(tcopy(e))
+
+        def apply(s, cur):
+            if is_mk(s, AUG):
+                op = getattr(ast, s.args[0].value, None)
+                return ast.BinOp(left=cur, op=op(), right=with_prev(s.args[1], cur)) if op is not None else None
+            if is_mk(s, SORT):
+                return ast.Call(func=ast.parse('np.sort', mode='eval').body, args=[cur] + [with_prev(a, cur) for a in s.args],
+                                keywords=[ast.keyword(arg=k.arg, value=with_prev(k.value, cur)) for k in s.keywords])
+            if is_mk(s, IFS):
+                if mentions(s.args[0], lambda x: isinstance(x, ast.Name) and x.id == PREV):
+                    return None
+                new = apply(s.args[1], cur)
+                return None if new is None else ast.IfExp(test=s.args[0], body=new, orelse=cur)
+            return None
+
+        def assume(e, test, truth):
+            """`e` where conditional expressions on `test` (or its negation) are resolved, `test` being `truth`"""
+            td = ast.dump(test)
+            nd = ast.dump(canon(ast.UnaryOp(op=ast.Not(), operand=tcopy(test))))
+
+            class R(ast.NodeTransformer):
+                def visit_IfExp(self, n):
+                    d = ast.dump(n.test)
+                    if d == td:
+                        return self.visit(n.body if truth else n.orelse)
+                    if d == nd:
+                        return self.visit(n.orelse if truth else n.body)
+                    return self.generic_visit(n)
+            return R().visit(tcopy(e))
+        cur = base
+        for s in steps:
+            cur = apply(s, cur)
+            if cur is None:
+                return None
+            if isinstance(cur, ast.IfExp):
+                t = cur.test
+                if isinstance(t, ast.UnaryOp) and isinstance(t.op, ast.Not):
+                    cur = ast.IfExp(test=t.operand, body=cur.orelse, orelse=cur.body)
+                cur = ast.IfExp(test=cur.test, body=assume(cur.body, cur.test, True), orelse=assume(cur.orelse, cur.test, False))
+        return canon(cur)
+
+    @staticmethod
+    def _load(t):
+        t = tcopy(t)
+        for x in ast.walk(t):
+            if hasattr(x, 'ctx'):
+                x.ctx = ast.Load()
+        return t
+
+    def _step(self, fi, name, st, stack, prev, stop, prior, bind_at=None):
+        from ..astutil import guards_of
+        V = self.V
+        pd = ast.dump(prev) if prev is not None else None
+
+        def cl(e):
+            v = self.expand(canon(V.close(fi, e, st, frozenset(), stack)), (fi.node, name, prior))
+            if pd is None:
+                return v
+
+            class P(ast.NodeTransformer):
+                def visit(self, n):
+                    if isinstance(n, ast.expr) and ast.dump(n) == pd:
+                        return ast.Name(id=PREV, ctx=ast.Load())
+                    return self.generic_visit(n)
+            return P().visit(v)
+
+        is_me = lambda e: isinstance(e, ast.Name) and e.id == name
+        s = None
+        if isinstance(st, ast.Assign) and len(st.targets) == 1 and isinstance(st.targets[0], ast.Subscript) and is_me(st.targets[0].value):
+            idx, val = cl(st.targets[0].slice), cl(st.value)
+            b = pm_any(['-P_[M_]', 'P_[M_] * -1', 'np.negative(P_[M_])', '0 - P_[M_]'], val)
+            if b is not None and isinstance(b['P_'], ast.Name) and b['P_'].id == PREV and same(b['M_'], idx):
+                s = _mk(NEG, idx)
+            else:
+                s = _mk(SET, idx, val)
+        elif isinstance(st, ast.AugAssign):
+            op = ast.Constant(type(st.op).__name__)
+            if is_me(st.target):
+                s = _mk(AUG, op, cl(st.value))
+            elif isinstance(st.target, ast.Subscript) and is_me(st.target.value):
+                idx, val = cl(st.target.slice), cl(st.value)
+                s = _mk(NEG, idx) if op.value == 'Mult' and const_value(val) == -1 else _mk(SETAUG, idx, op, val)
+        elif isinstance(st, ast.Expr) and isinstance(st.value, ast.Call) and isinstance(st.value.func, ast.Attribute) and is_me(st.value.func.value):
+            c = st.value
+            if not any(isinstance(a, ast.Starred) for a in c.args) and all(k.arg for k in c.keywords):
+                if c.func.attr == 'fill' and len(c.args) == 1 and not c.keywords:
+                    s = _mk(SET, ast.Slice(lower=None, upper=None, step=None), cl(c.args[0]))
+                else:
+                    s = _mk(SORT) if c.func.attr == 'sort' else _mk(METH, ast.Constant(c.func.attr))
+                    s.args += [cl(a) for a in c.args]
+                    s.keywords = [ast.keyword(arg=k.arg, value=cl(k.value)) for k in c.keywords]
+        if s is None:
+            raise Undecided(f'the in-place alteration `{norm(st)[:70]}` of `{name}` is not modelled')
+        shared = {(id(owner), pol) for _, pol, owner in guards_of(bind_at, stop=stop)} if bind_at is not None else set()
+        for test, pol, owner in guards_of(st, stop=stop):
+            if (id(owner), pol) in shared:
+                continue        # the binding is made under the same condition
+            if not isinstance(owner, ast.If):
+                raise Undecided(f'`{name}` is altered under `{norm(test)[:40]}`, which is not an if statement')
+            t = cl(test)
+            s = _mk(IFS, t if pol else canon(ast.UnaryOp(op=ast.Not(), operand=t)), s)
+        s.lineno = st.lineno
+        return s
+
+
+# ---------------------------------------------------------------------------------------------------------------
+# Mirror comparison of two state values under the exchange σ: the two received coordinate arrays, the grid's
+# latitude / longitude axis and the loop-filled per-axis arrays (paired one-to-one as they are met; σ is an
+# involution).  `diff(a, b)` is None when σ(a) is b, else (kind, text, a-part, b-part) for the first difference:
+#     'asym'     a recognised asymmetry - a coordinate / axis / per-axis array / loop variable / numeric constant that
+#                is not the mirror image, or a different number of in-place alteration steps
+#     'unknown'  the two sides are written differently (other function, other shape) and the values are not shown equal
+# + * & | match in either order; differently written arithmetic is compared by rational normal form; inside
+# len(·) / ·.shape[0] (and ·.size / ·.shape of values without per-axis arrays) either side's own array is as good as
+# its mirror image (both have the same length); axis=-1 is axis=1.
+# ---------------------------------------------------------------------------------------------------------------
+def patched_as_where(e):
+    """`x = Q; x[mask] = c` (state value STEPS__(Q, SET__(mask, c), ...) with boolean masks and constant values) read as
+    the expression np.where(mask, c, Q); None when `e` is not of that form"""
+    if not is_mk(e, STEPS):
+        return None
+    cur = e.args[0]
+    for st in e.args[1:]:
+        if not (is_mk(st, SET) and is_mask(st.args[0]) and (const_value(st.args[1]) is not None or norm(st.args[1]) in ('np.nan', 'np.inf'))):
+            return None
+        cur = ast.Call(func=ast.parse('np.where', mode='eval').body, args=[st.args[0], st.args[1], cur], keywords=[])
+    return canon(cur)
+
+
+def grid_states(ctx):
+    """the state values over grid_values(ctx), computed once per run"""
+    st = ctx.__dict__.get('_grid_states')
+    if st is None:
+        st = ctx._grid_states = States(grid_values(ctx))
+    return st
+
+
+class Mirror:
+    SWAP = {'grid_latitudes': 'grid_longitudes', 'grid_longitudes': 'grid_latitudes'}
+    _MARKERS = (STEPS, LFILL, PREV, SET, NEG, SORT, AUG, SETAUG, METH, IFS, FOR)
+
+    def __init__(self, fi, coords):
+        self.params = set(fi.params)
+        self.pinv = {coords[0]: coords[1], coords[1]: coords[0]}
+        self.pair = {}
+        self.ren, self.rev = {}, {}
+        self.where = []
+
+    # -- bookkeeping for back-tracking
+    def _snap(self):
+        return dict(self.pinv), dict(self.pair), dict(self.ren), dict(self.rev)
+
+    def _restore(self, s):
+        self.pinv, self.pair, self.ren, self.rev = (dict(x) for x in s)
+
+    def _bind(self, ta, tb):
+        """loop / comprehension targets stand for each other"""
+        na = [x.id for x in ast.walk(ta) if isinstance(x, ast.Name)]
+        nb = [x.id for x in ast.walk(tb) if isinstance(x, ast.Name)]
+        if len(na) != len(nb):
+            return ('unknown', 'loop targets of different shape', ta, tb)
+        for x, y in zip(na, nb):
+            self.ren[x] = y
+            self.rev[y] = x
+        return None
+
+    @staticmethod
+    def _size_of(e):
+        b = pm_any(['len(X_)', 'X_.shape[0]', 'np.shape(X_)[0]'], e)
+        if b is not None:
+            return 'len', b['X_']
+        b = pm_any(['X_.size', 'np.size(X_)', 'X_.shape', 'np.shape(X_)'], e)
+        if b is not None and not (isinstance(b['X_'], ast.Name) and b['X_'].id in ('np', 'self')):
+            return 'size', b['X_']
+        return None
+
+    def sigma(self, a):
+        """σ(a) as a tree (pairs / involutions found so far)"""
+        M = self
+
+        class T(ast.NodeTransformer):
+            def visit_Name(self, n):
+                return ast.Name(id=M.pinv.get(n.id, M.ren.get(n.id, n.id)), ctx=ast.Load())
+
+            def visit_Attribute(self, n):
+                self.generic_visit(n)
+                if isinstance(n.value, ast.Name) and n.value.id == 'self':
+                    n.attr = M.SWAP.get(n.attr, n.attr)
+                return n
+
+            def visit_Call(self, n):
+                if is_mk(n, LFILL):
+                    return _mk(LFILL, ast.Constant(M.pair.get(n.args[0].value, n.args[0].value)))
+                self.generic_visit(n)
+                return n
+        return T().visit(tcopy(a))
+
+    def _algebra(self, a, b):
+        """True: σ(a) and b are the same rational expression; False: different expressions of the same quantities; None: not
+        comparable as arithmetic"""
+        arith = lambda x: isinstance(x, ast.BinOp) and isinstance(x.op, (ast.Add, ast.Sub, ast.Mult, ast.Div, ast.Pow)) or \
+            (isinstance(x, ast.UnaryOp) and isinstance(x.op, (ast.USub, ast.UAdd)))
+        if not (arith(a) or arith(b)):
+            return None
+        try:
+            ra, rb = normal_form(self.sigma(a), {}), normal_form(b, {})
+            if poly_equal(ra, rb):
+                return True
+            return False if ra.atoms() == rb.atoms() and ra.atoms() else None
+        except (AlgebraError, RecursionError, ValueError, TypeError, ZeroDivisionError):
+            return None
+
+    def _algebra_equal(self, a, b):
+        return self._algebra(a, b) is True
+
+    def _arith_verdict(self, a, b, d):
+        r = self._algebra(a, b)
+        if r is True:
+            return None
+        if r is False:
+            return ('asym', 'a different expression of the same quantities', a, b)
+        return d
+
+    def diff(self, a, b):
+        nm = getattr(b, '_nm', None)
+        if nm:
+            self.where.append(nm)
+        try:
+            d = self._diff(a, b)
+            if d is not None and len(d) == 4:
+                d = d + (' → '.join(self.where[-4:]) if self.where else None,)
+            return d
+        finally:
+            if nm:
+                self.where.pop()
+
+    def _seq(self, xs, ys, what):
+        if len(xs) != len(ys):
+            return ('unknown', f'{what}: {len(xs)} on one side, {len(ys)} on the other', None, None)
+        for x, y in zip(xs, ys):
+            d = self.diff(x, y)
+            if d is not None:
+                return d
+        return None
+
+    def _diff(self, a, b):
+        if a is None or b is None:
+            return None if a is b else ('unknown', 'one side has a part the other has not', a, b)
+        sa_, sb_ = self._size_of(a), self._size_of(b)
+        if sa_ is not None and sb_ is not None and (sa_[0] == sb_[0]):
+            if same(sa_[1], sb_[1]) and (sa_[0] == 'len' or not mentions(sa_[1], lambda x: is_mk(x, LFILL))):
+                return None
+            return self.diff(sa_[1], sb_[1])
+        if is_mk(a, LFILL) or is_mk(b, LFILL):
+            if not (is_mk(a, LFILL) and is_mk(b, LFILL)):
+                return ('unknown', 'an array filled in a loop on one side only', a, b)
+            ka, kb = a.args[0].value, b.args[0].value
+            if self.pair.get(ka, kb) != kb or self.pair.get(kb, ka) != ka:
+                want = self.pair.get(ka) or next((k for k, v in self.pair.items() if v == kb), None)
+                return ('asym', f'`{kb.split("@")[0]}` is used where the mirror image of `{ka.split("@")[0]}` is ' +
+                        (f'`{self.pair[ka].split("@")[0]}`' if ka in self.pair else f'not it (it is the mirror image of `{self.pair[kb].split("@")[0]}`)'),
+                        a, b)
+            self.pair[ka], self.pair[kb] = kb, ka
+            return None
+        ca, cb = const_value(a), const_value(b)
+        if ca is not None and cb is not None and not isinstance(ca, (str, bytes)) and not isinstance(cb, (str, bytes)):
+            return None if ca == cb and isinstance(ca, bool) == isinstance(cb, bool) else \
+                ('asym', f'the constant {cb!r} where the other side has {ca!r}', a, b)
+        if type(a) is not type(b):
+            return self._arith_verdict(a, b, ('unknown', 'the two sides are written differently', a, b))
+        if isinstance(a, ast.Constant):
+            return None if a.value == b.value and type(a.value) is type(b.value) else ('unknown', 'different constants', a, b)
+        if isinstance(a, ast.Name):
+            if a.id in self.ren or b.id in self.rev:
+                return None if self.ren.get(a.id) == b.id and self.rev.get(b.id) == a.id else \
+                    ('asym', f'the loop variable `{b.id}` where `{self.ren.get(a.id, "?")}` stands for `{a.id}` of the other side', a, b)
+            if a.id in self.pinv or b.id in self.pinv or (a.id in self.params and b.id in self.params):
+                if a.id not in self.pinv and b.id not in self.pinv:
+                    self.pinv[a.id], self.pinv[b.id] = b.id, a.id
+                return None if self.pinv.get(a.id) == b.id else \
+                    ('asym', f'`{b.id}` where the mirror image of `{a.id}` is `{self.pinv.get(a.id, "?")}`', a, b)
+            return None if a.id == b.id else ('unknown', f'`{a.id}` on one side, `{b.id}` on the other', a, b)
+        if isinstance(a, ast.Attribute):
+            if isinstance(a.value, ast.Name) and a.value.id == 'self' and isinstance(b.value, ast.Name) and b.value.id == 'self' and \
+                    (a.attr in self.SWAP or b.attr in self.SWAP):
+                return None if self.SWAP.get(a.attr) == b.attr else \
+                    ('asym', f'`self.{b.attr}` where the mirror image of `self.{a.attr}` is `self.{self.SWAP.get(a.attr, a.attr)}`', a, b)
+            if a.attr != b.attr:
+                return ('unknown', f'`.{a.attr}` on one side, `.{b.attr}` on the other', a, b)
+            return self.diff(a.value, b.value)
+        if isinstance(a, ast.BinOp):
+            if type(a.op) is type(b.op):
+                snap = self._snap()
+                d = self.diff(a.left, b.left) or self.diff(a.right, b.right)
+                if d is None:
+                    return None
+                if isinstance(a.op, (ast.Add, ast.Mult, ast.BitAnd, ast.BitOr)):
+                    self._restore(snap)
+                    d2 = self.diff(a.left, b.right) or self.diff(a.right, b.left)
+                    if d2 is None:
+                        return None
+                self._restore(snap)
+                if d[0] == 'asym':
+                    return d
+            else:
+                d = ('unknown', 'different arithmetic', a, b)
+            return self._arith_verdict(a, b, d)
+        if isinstance(a, ast.UnaryOp):
+            if type(a.op) is not type(b.op):
+                return self._arith_verdict(a, b, ('unknown', 'different operators', a, b))
+            return self.diff(a.operand, b.operand)
+        if isinstance(a, ast.Slice):
+            for f, dflt in (('lower', 0), ('upper', None), ('step', 1)):
+                x, y = getattr(a, f), getattr(b, f)
+                cx = dflt if x is None else const_value(x)
+                cy = dflt if y is None else const_value(y)
+                plain = lambda n, c: n is None or c is not None
+                if plain(x, cx) and plain(y, cy):
+                    if cx != cy:
+                        return ('asym', f'the slice `{norm(b)}` where the other side has `{norm(a)}`', a, b)
+                    continue
+                if x is None or y is None:
+                    return ('unknown', f'the slices `{norm(b)[:40]}` and `{norm(a)[:40]}` are written differently', a, b)
+                d = self.diff(x, y)
+                if d is not None:
+                    return d
+            return None
+        if isinstance(a, ast.Compare):
+            if [type(o) for o in a.ops] != [type(o) for o in b.ops]:
+                return ('unknown', 'different comparisons', a, b)
+            return self._seq([a.left] + a.comparators, [b.left] + b.comparators, 'comparison')
+        if isinstance(a, ast.Call):
+            if is_mk(a, STEPS) and is_mk(b, STEPS):
+                d = self.diff(a.args[0], b.args[0])
+                if d is not None:
+                    return d
+                return self.steps(a.args[1:], b.args[1:], show(b, 40))
+            if is_mk(a, FOR) and is_mk(b, FOR):
+                return self.diff(a.args[1], b.args[1]) or self._bind(a.args[0], b.args[0]) or self.diff(a.args[2], b.args[2])
+            d = self.diff(a.func, b.func)
+            if d is not None:
+                return d if d[0] == 'asym' or not any(is_mk(x, mk) for x in (a, b) for mk in self._MARKERS) else \
+                    ('unknown', 'a different kind of in-place alteration', a, b)
+            ka, kb = {k.arg: k.value for k in a.keywords}, {k.arg: k.value for k in b.keywords}
+            if len(a.args) != len(b.args) or set(ka) != set(kb):
+                return ('unknown', 'the same function is called with different arguments', a, b)
+            d = self._seq(a.args, b.args, 'arguments')
+            if d is not None:
+                return d
+            for k in ka:
+                if k == 'axis' and {const_value(ka[k]), const_value(kb[k])} == {1, -1}:
+                    continue
+                d = self.diff(ka[k], kb[k])
+                if d is not None:
+                    return d
+            return None
+        if isinstance(a, (ast.GeneratorExp, ast.ListComp, ast.SetComp)):
+            if len(a.generators) != len(b.generators):
+                return ('unknown', 'comprehensions of different shape', a, b)
+            for g, h in zip(a.generators, b.generators):
+                d = self.diff(g.iter, h.iter) or self._bind(g.target, h.target) or self._seq(g.ifs, h.ifs, 'filters')
+                if d is not None:
+                    return d
+            return self.diff(a.elt, b.elt)
+        if isinstance(a, ast.Lambda):
+            return self._bind(ast.Tuple(elts=[ast.Name(id=x.arg, ctx=ast.Load()) for x in a.args.args], ctx=ast.Load()),
+                              ast.Tuple(elts=[ast.Name(id=x.arg, ctx=ast.Load()) for x in b.args.args], ctx=ast.Load())) or \
+                self.diff(a.body, b.body)
+        for f in a._fields:
+            if f == 'ctx':
+                continue
+            x, y = getattr(a, f, None), getattr(b, f, None)
+            if isinstance(x, list) or isinstance(y, list):
+                if not (isinstance(x, list) and isinstance(y, list)):
+                    return ('unknown', 'the two sides are written differently', a, b)
+                d = self._seq(x, y, type(a).__name__.lower() + ' parts')
+                if d is not None:
+                    return d if d[2] is not None else d[:2] + (a, b)
+            elif isinstance(x, ast.AST) or isinstance(y, ast.AST):
+                d = self.diff(x if isinstance(x, ast.AST) else None, y if isinstance(y, ast.AST) else None)
+                if d is not None:
+                    return d if d[2] is not None or d[3] is not None else d[:2] + (a, b)
+            elif x != y:
+                return ('unknown', 'the two sides are written differently', a, b)
+        return None
+
+    def steps(self, xs, ys, what, values=None):
+        """two lists of in-place alteration steps are mirror images, step by step"""
+        if len(xs) != len(ys):
+            longer, n = (xs, 0) if len(xs) > len(ys) else (ys, 1)
+            extra = longer[min(len(xs), len(ys))]
+            return ('asym', f'{what} is altered in place {len(ys)} times, its counterpart {len(xs)} times '
+                            f'(`{show(extra, 70)}` has no counterpart)', xs[-1] if xs else None, ys[-1] if ys else None)
+        for x, y in zip(xs, ys):
+            d = self.diff(x, y) if values is None else values(x, y)
+            if d is not None:
+                return d
+        return None
+
+
+def _describe(e, n=70):
+    class T(ast.NodeTransformer):
+        def visit_Call(self, c):
+            if is_mk(c, LFILL):
+                return ast.Name(id=f'<{c.args[0].value.split("@")[0]}>', ctx=ast.Load())
+            if is_mk(c, STEPS):
+                nm = getattr(c, '_nm', None)
+                return ast.Name(id=f'<{nm or "array"}, altered in place>', ctx=ast.Load())
+            self.generic_visit(c)
+            return c
+    try:
+        return show(T().visit(tcopy(e)), n) if e is not None else '-'
+    except Exception:
+        return type(e).__name__
+
+
+def rule_mirror(ctx, m):
+    """C05-R6 on state values: the arrays the horizontal intersection returns come in latitude / longitude pairs (point
+    coordinates, cell indices).  What a latitude-side array holds - with every local replaced by what it holds, helpers
+    opened, in-place alterations applied in order - must be what its longitude-side counterpart holds under the exchange
+    σ of the received coordinates (lats <-> lons), the grid axes (grid_latitudes <-> grid_longitudes) and the per-axis
+    arrays filled in the loops over the crossed grid lines, paired one-to-one as they are met.  The loop-filled arrays
+    themselves are compared in turn: allocation, iteration and the positions written always; the values written only
+    when they are values of ONE axis (the crossing coordinates on the other axis solve lon = slope·lat + intercept for
+    one or the other coordinate and are no mirror images by nature)."""
+    V = grid_values(ctx)
+    S = grid_states(ctx)
+    hz = m.func(HZ_FN)
+    coords = [p for p in hz.params if p not in ('self', 'cls')]
+    if len(coords) != 2:
+        ctx.undecided('C05-R6', hz, 'parameters', f'the horizontal intersection receives {coords}, not two coordinate arrays')
+    leaves = hz_leaves(ctx, m, 'C05-R6')
+    # pairs: the two leaves of each innermost pair of the returned structure; else by the role of the returned local
+    shape = V._result_shape(hz)
+
+    def inner_pairs(node):
+        if isinstance(node, dict):
+            subs = list(node.values())
+            if len(subs) == 2 and not any(isinstance(x, dict) for x in subs):
+                yield tuple(subs)
+            else:
+                for x in subs:
+                    yield from inner_pairs(x)
+    by_name = {name: (role, val) for role, name, val, ret in leaves}
+    pairs = [p for p in inner_pairs(shape) if all(n in by_name for n in p)]
+    if 2 * len(pairs) != len(leaves) or not pairs:
+        pairs = []
+        for kind in ('coordinate', 'index'):
+            got = {role.split()[0]: name for role, name, val, ret in leaves if role and role.endswith(kind)}
+            if set(got) == {'lat', 'lon'}:
+                pairs.append((got['lat'], got['lon']))
+    if 2 * len(pairs) != len(leaves) or not pairs:
+        ctx.undecided('C05-R6', hz, 'returned arrays', 'the returned arrays are not recognised as latitude / longitude pairs')
+    ret = leaves[0][3]
+    M = Mirror(hz, coords)
+    pend = Pending(ctx)
+
+    def verdict(d, what_a, what_b):
+        if d is None:
+            return True, 'mirror images under lat <-> lon'
+        kind, why, a, b = d[:4]
+        inside = f' (in `{d[4]}`)' if len(d) > 4 and d[4] else ''
+        txt = f'{why}{inside}: `{_describe(b)}` against `{_describe(a)}`'
+        if kind == 'asym':
+            return False, (f'latitude and longitude are treated differently - {what_b} is not what {what_a} is with latitude and '
+                           f'longitude exchanged: {txt}')
+        return None, f'{what_a} and {what_b} are written differently and are not shown to be mirror images: {txt}'
+
+    def line_of(d, default):
+        for x in (d[3], d[2]) if d is not None else ():
+            if x is not None and getattr(x, 'lineno', None):
+                return x.lineno
+        return default
+
+    n = 0
+    for na, nb in pairs:
+        va, vb = S.expand(by_name[na][1]), S.expand(by_name[nb][1])
+        d = M.diff(va, vb)
+        n += 1
+        pend.put('C05-R6', hz, f'returned {na} ↔ {nb}', verdict(d, f'`{na}`', f'`{nb}`'), line=line_of(d, ret.lineno))
+    # the loop-filled per-axis arrays that stand for each other
     done = set()
-    for _ in range(8):
-        todo = [(x, y) for x, y in ren.items() if x != y and (x, y) not in done]
+    nfill = 0
+    for _ in range(6):
+        todo = [(ka, kb) for ka, kb in sorted(M.pair.items()) if ka <= kb and (ka, kb) not in done]
         if not todo:
             break
-        for x, y in todo:
-            done.add((x, y))
-            a, b = rooted(x), rooted(y)
-            bad = next(((p, q) for p, q in zip(a, b) if not mirror_eq(norm(p), norm(q))), None)
-            ok = len(a) == len(b) and bad is None
-            ctx.ob('C05-R6', hz, f'temporary {x} ↔ {y}', ok, 'built and altered as mirror images' if ok else
-                   (f'latitude and longitude are treated differently: `{norm(bad[0])[:60]}` vs `{norm(bad[1])[:60]}`'
-                    if bad else 'one axis has more statements on its temporary than the other'),
-                   line=(bad[1].lineno if bad else (b[0].lineno if b else hz.node.lineno)))
-    ctx.floor('C05-R6', npairs, 12, 'mirrored lat/lon statement pairs')
+        for ka, kb in todo:
+            done.add((ka, kb))
+            A, B = S.fills[ka], S.fills[kb]
+            what_a, what_b = f'`{A["name"]}`', f'`{B["name"]}`'
+            nfill += 1
+            if ka == kb:
+                what_b = f'`{B["name"]}` (used on both sides)'
+            d = M.diff(A['base'], B['base'])
 
+            def values(x, y):
+                """steps of the fill loops: where and when always, the written value when it is a one-axis value"""
+                ren, rev = dict(M.ren), dict(M.rev)
+                try:
+                    while is_mk(x, FOR) and is_mk(y, FOR):
+                        dd = M.diff(x.args[1], y.args[1]) or M._bind(x.args[0], y.args[0])
+                        if dd is not None:
+                            return dd
+                        x, y = x.args[2], y.args[2]
+                    # a write made under an `if` on one side only: a skip guard like `if …: continue` (not compared)
+                    depth = lambda z: 1 + depth(z.args[1]) if is_mk(z, IFS) else 0
+                    while depth(x) > depth(y):
+                        x = x.args[1]
+                    while depth(y) > depth(x):
+                        y = y.args[1]
+                    while is_mk(x, IFS) and is_mk(y, IFS):
+                        dd = M.diff(x.args[0], y.args[0])
+                        if dd is not None:
+                            return dd
+                        x, y = x.args[1], y.args[1]
+                    if is_mk(x, SET) and is_mk(y, SET):
+                        dd = M.diff(x.args[0], y.args[0])
+                        if dd is not None:
+                            return dd
+                        snap = M._snap()
+                        dd = M.diff(x.args[1], y.args[1])
+                        if dd is not None and any(set(coords) <= names_in(v) for v in (x.args[1], y.args[1])):
+                            M._restore(snap)
+                            ctx.ob('C05-R6', hz, f'{what_a} ↔ {what_b}: values written', True,
+                                   'computed from both coordinates (the line through the way-points): no mirror image by nature, '
+                                   'not compared', line=getattr(y, 'lineno', B['line']), nontrivial=False)
+                            return None
+                        return dd
+                    return M.diff(x, y)
+                finally:
+                    M.ren, M.rev = ren, rev
+            if d is None:
+                d = M.steps(A['steps'], B['steps'], what_b, values)
+            pend.put('C05-R6', hz, f'per-axis array {A["name"]} ↔ {B["name"]}', verdict(d, what_a, what_b), line=line_of(d, B['line']))
+    ctx.rules_run.setdefault('C05-R6/fills', {})['found'] = nfill
+    ctx.floor('C05-R6', n, 2, 'latitude / longitude pairs of returned arrays')
+    # positive control: an exchanged coordinate is recognised
+    ca, cb = (canon(ast.parse(t, mode='eval').body) for t in (f'np.sign(np.diff({coords[0]})) == -1', f'np.sign(np.diff({coords[0]})) == -1'))
+    dctl = Mirror(hz, coords).diff(ca, cb)
+    ctx.control('C05-R6', dctl is not None and dctl[0] == 'asym', 'embedded one-sided use of a coordinate is recognised as an asymmetry')
+    pend.flush()
 
 
 def rule_axes(ctx, m):
-    """C05-R3: first/second markers agree (lexical), and - by value - each of the four coordinate outputs of the functions
+    """C05-R3: part agreement by provenance (c04.rule_suffix), and - by value - each of the four coordinate outputs of the functions
     that turn cell indices into cell coordinates is `self.grid_<axis>[<the share computation's index array of that same
     axis>]`, in the documented order latitude, longitude, altitude, time (halves joined first then second)."""
     rule_suffix(ctx, m, rule='C05-R3')
